@@ -9,6 +9,21 @@ use std::iter::FromIterator;
 #[global_allocator]
 static A: CountingAlloc = CountingAlloc;
 
+/// `clone` events: the buffer is replaced by its clone where the storage can be cloned (a `&mut [T]` cannot:
+/// the event is then a no-op, which is also what the specification says a clone is for the abstract queue).
+trait Dup: Sized {
+    fn dup(&self) -> Option<Self>;
+}
+macro_rules! dup {
+    ($($t:ty),*) => { $(
+        impl Dup for Bounded<$t> { fn dup(&self) -> Option<Self> { Some(self.clone()) } }
+        impl Dup for Fixed<$t> { fn dup(&self) -> Option<Self> { Some(self.clone()) } }
+    )* };
+}
+dup!(Vec<i32>, Box<[i32]>, [i32; 1], [i32; 2], [i32; 3], [i32; 4], [i32; 5], [i32; 6], [i32; 7], [i32; 8]);
+impl Dup for Bounded<&'static mut [i32]> { fn dup(&self) -> Option<Self> { None } }
+impl Dup for Fixed<&'static mut [i32]> { fn dup(&self) -> Option<Self> { None } }
+
 const PAD: usize = 4;
 const CANARY: i32 = -999;
 
@@ -81,7 +96,9 @@ fn run_bounded<S: SliceMut<Element = i32>>(
     storage: &str,
     build: impl FnOnce() -> Bounded<S>,
     canary: &dyn Fn() -> bool,
-) {
+) where
+    Bounded<S>: Dup,
+{
     let mut cfg = reset["cfg"].clone();
     cfg["storage"] = json!(storage);
     let built = catch(build);
@@ -110,6 +127,12 @@ fn run_bounded<S: SliceMut<Element = i32>>(
                 "push" => R::Opt(rb.push(wv)),
                 "pop" => R::Opt(rb.pop()),
                 "views" => R::Unit,
+                "clone" => {
+                    if let Some(c) = rb.dup() {
+                        rb = c;
+                    }
+                    R::Unit
+                }
                 "get" => R::Opt(rb.get(ix).cloned()),
                 "index" => R::Opt(Some(rb[ix])),
                 "get_mut" => match rb.get_mut(ix) {
@@ -263,7 +286,9 @@ fn run_fixed<S: SliceMut<Element = i32>>(
     storage: &str,
     build: impl FnOnce() -> Fixed<S>,
     canary: &dyn Fn() -> bool,
-) {
+) where
+    Fixed<S>: Dup,
+{
     let mut cfg = reset["cfg"].clone();
     cfg["storage"] = json!(storage);
     let mut rb = match catch(build) {
@@ -289,6 +314,12 @@ fn run_fixed<S: SliceMut<Element = i32>>(
             catch(|| match ev {
                 "push" => R::Opt(Some(rb.push(wv))),
                 "views" => R::Unit,
+                "clone" => {
+                    if let Some(c) = rb.dup() {
+                        rb = c;
+                    }
+                    R::Unit
+                }
                 "get" => R::Opt(Some(*rb.get(ix))),
                 "index" => R::Opt(Some(rb[ix])),
                 "get_mut" => {
@@ -448,7 +479,9 @@ fn gen(seed: u64, size: &str, path: &str) {
             let mut approx_len = len.min(cap);
             for _ in 0..n_ops {
                 let k = rng.below(100);
-                let op = if k < 35 {
+                let op = if rng.chance(1, 25) {
+                    json!({"ev":"clone","a":{"x":0}})
+                } else if k < 35 {
                     fresh += 1; approx_len = (approx_len + 1).min(cap);
                     json!({"ev":"push","a":{"v":fresh}})
                 } else if k < 55 {
@@ -492,7 +525,9 @@ fn gen(seed: u64, size: &str, path: &str) {
                 let ix = |rng: &mut Rng| -> i64 {
                     match rng.below(12) { 0 => -1, 1..=8 => rng.below(cap as u64) as i64, _ => rng.below(5 * cap as u64 + 7) as i64 }
                 };
-                let op = if k < 45 {
+                let op = if rng.chance(1, 25) {
+                    json!({"ev":"clone","a":{"x":0}})
+                } else if k < 45 {
                     fresh += 1;
                     json!({"ev":"push","a":{"v":fresh}})
                 } else if k < 55 {
